@@ -134,6 +134,27 @@ def gen_plan(pid, seed, idx, profile):
                 ops[-1]["a"] = [insts.index(ins)]
             t = ops[-1]["t"]
             disturbed = True
+        elif kind == "find" and r.random() < 0.2:
+            # a requester restarts (or its datagrams are reordered) while an answer to it is pending: the answer to the
+            # earlier request, the answer to the request that reveals the reboot and every later one are still owed
+            ins = r.choice(insts)
+            p = r.randrange(3)
+            ch = r.choice("uuum")
+            tt = t
+            ops.append({"k": "sd", "t": round(tt, 9), "p": p, "ch": ch, "e": [find_spec(r, ins)]})
+            tt += r.choice([0.0, 0.0005, 0.002, 0.01, 0.04])
+            if r.random() < 0.6:
+                ops.append({"k": "preboot", "t": round(tt, 9), "p": p})
+                ops.append({"k": "sd", "t": round(tt, 9), "p": p, "ch": ch, "e": [find_spec(r, ins)]})
+            else:
+                # session ids 6, then 5: the second looks like a restart (or is a reordered datagram)
+                ops[-1]["sess"] = [1, 6]
+                ops.append({"k": "sd", "t": round(tt, 9), "p": p, "ch": ch, "sess": [1, 5], "e": [find_spec(r, ins)]})
+            for _ in range(r.randint(0, 2)):
+                tt += r.choice([0.0005, 0.01, 0.2, 1.0])
+                ops.append({"k": "sd", "t": round(tt, 9), "p": p, "ch": ch, "e": [["find", ins["svc"], 0xFFFF, 0xFF, 0xFFFFFFFF, 3]]})
+            t = tt
+            disturbed = True
         elif kind == "find":
             ins = r.choice(insts + ([HELPER] if use_helper else []))
             ch = r.choice("um")
